@@ -27,9 +27,15 @@
    rw/fref act=reref (ref(reference_wrapper)) | rebind (assignment); fref ne=1: function_ref<R(Args...) noexcept>
    log entry: tid/self/args; per argument a letter and the value: v by-value parameter, l c r k category seen by a
           forwarding parameter, L C R K the same for an argument that arrives as a reference_wrapper
-   new                                                           -> four empty inplace_function objects (3 = small capacity)
+   new                                                           -> six empty inplace_function objects: 0..2 capacity 32,
+                                                                    3..4 capacity 16, 5 capacity 24 / alignment 8
    ifn op=ctor_empty|ctor_null|ctor_fn|ctor_copy|ctor_move|assign|massign|assign_fn|assign_null|swap|fswap|call|bool|eqnull|nenull
-       i=I [j=J] [ty=T id=N] [x=X]                               -> <res> e=[..] live=N log=L                      -/
+       i=I [j=J] [ty=T id=N] [x=X]                               -> <res> e=[..] live=N log=L
+   ifn op=ctor_from|assign_from i=I j=J q=Q     object I is constructed / assigned from object J handed over as an expression of
+       category Q (0 non-const lvalue, 1 const lvalue, 2 rvalue, 3 const rvalue); ctor_copy/assign = q=1, ctor_move/massign = q=2;
+       J may be of a smaller capacity than I (converting constructors)
+   mft tg=T q=Q a=[..]    make_from_tuple<T>(tuple of category Q): which constructor of the target type initialises, and
+       with what (see `Target`)                                   -> r=<c|l|->[..]                                 -/
 import Tetl.Proto
 import Tetl.C20.Model
 import Tetl.C20.Spec
@@ -188,11 +194,20 @@ def boundObjOf (o : String) : Option BoundObj :=
   | "refw" => some (.refw .l)
   | _ => none
 
+def targetOf : Nat → Option Target
+  | 0 => some .plain | 1 => some .il | 2 => some .ilWide | 3 => some .ilOther | 4 => some .agg | 5 => some .expl
+  | 6 => some .aggNarrow | 7 => some .ctorNarrow | _ => none
+
+def fmtBuilt : Built → String
+  | .ctor l => s!"r=c{fmtList l}"
+  | .list l => s!"r=l{fmtList l}"
+  | .illFormed => "r=-"
+
 structure DState where
   m : Except Err St
   s : Spec.ASt
 
-def nObj : Nat := 4
+def nObj : Nat := 6
 
 /-- the harness can only count closures with a user-provided copy constructor / destructor (odd `ty`) -/
 def counted : Option Fn → Bool
@@ -234,24 +249,41 @@ def fmtOut : Out → String
   | .res (.ret r) => s!"r={r}"
   | .flag b => s!"b={fmtBool b}"
 
+/-- specialisation of the named objects of a history: 0..2 `inplace_function<Sig, 32>`, 3..4 `inplace_function<Sig, 16>`,
+    5 `inplace_function<Sig, 24, 8>` -/
+def clsOf (i : Nat) : Nat := if i < 3 then 0 else if i < 5 then 1 else 2
+
+/-- construction / assignment of object `i` from object `j` compiles: same specialisation, or the capacity-32 destination from
+    one of the smaller ones (`is_valid_inplace_destination`: capacity and alignment of the source fit) -/
+def fromOk (i j : Nat) : Bool := i < nObj && j < nObj && (clsOf i == clsOf j || clsOf i == 0)
+
 def parseIfn (l : Line) : Option Op :=
   let i := l.nat? "i"
   let j := l.nat? "j"
-  let conv (i j : Nat) : Bool := j == 3 && i != 3
+  let conv (i j : Nat) : Bool := clsOf i != clsOf j
+  let q := (l.nat? "q").bind catOf
   let fn? : Option Fn := match l.nat? "ty", l.nat? "id" with
     | some ty, some id => some { ty := ty, id := id, n := 0 }
+    | _, _ => none
+  let from? (mk : Nat → Nat → Bool → Cat → Op) (i : Nat) (q : Option Cat) : Option Op :=
+    match j, q with
+    | some j, some q => if fromOk i j then some (mk i j (conv i j) q) else none
     | _, _ => none
   match l.str? "op", i with
   | some "ctor_empty", some i | some "ctor_null", some i => some (.ctorEmpty i)
   | some "ctor_fn", some i => fn?.map (.ctorFn i)
-  | some "ctor_copy", some i => j.map fun j => .ctorCopy i j (conv i j)
-  | some "ctor_move", some i => j.map fun j => .ctorMove i j (conv i j)
-  | some "assign", some i => j.map fun j => .assignCopy i j (conv i j)
-  | some "massign", some i => j.map fun j => .assignMove i j (conv i j)
+  -- `ctor_copy` / `assign`: the source is a const lvalue (`as_const`); `ctor_move` / `massign`: `move(source)`;
+  -- `ctor_from` / `assign_from q=Q`: the source expression has category Q
+  | some "ctor_copy", some i => from? .ctorFrom i (some .c)
+  | some "ctor_move", some i => from? .ctorFrom i (some .r)
+  | some "ctor_from", some i => from? .ctorFrom i q
+  | some "assign", some i => from? .assignFrom i (some .c)
+  | some "massign", some i => from? .assignFrom i (some .r)
+  | some "assign_from", some i => from? .assignFrom i q
   | some "assign_fn", some i => fn?.map (.assignFn i)
   | some "assign_null", some i => some (.assignNull i)
-  | some "swap", some i => j.map (.swap i)
-  | some "fswap", some i => j.map (.fswap i)
+  | some "swap", some i => j.bind fun j => if clsOf i == clsOf j then some (.swap i j) else none
+  | some "fswap", some i => j.bind fun j => if clsOf i == clsOf j then some (.fswap i j) else none
   | some "call", some i => (l.int? "x").map (.call i)
   | some "bool", some i => some (.bool i)
   | some "eqnull", some i => some (.eqNull i)
@@ -455,6 +487,15 @@ def step (st : DState) (l : Line) : DState × String :=
         out (fmtE f (notFnCall 4 q (p == 1) args)) (f (Spec.notFnCall 4 q (p == 1) args))
       | none => bad
     | _, _, _, _ => bad
+  | "mft" =>
+    -- make_from_tuple<T>(t): which constructor of the target kind initialises; `form=brace`: the direct-list-initialisation
+    -- `T{..}` compiled directly (no library code: validates `Spec.listInit` against the compiler)
+    match (l.nat? "tg").bind targetOf, (l.nat? "q").bind catOf, l.list? "a" with
+    | some tg, some _, some a =>
+      if a.length > 3 || (l.str? "src" == some "pair" && a.length != 2) then bad
+      else if l.str? "form" == some "brace" then out (fmtBuilt (Spec.listInit tg a)) (fmtBuilt (Spec.listInit tg a))
+      else out (fmtE fmtBuilt (makeFromTupleT tg a)) (fmtBuilt (Spec.directInit tg a))
+    | _, _, _ => bad
   | "typeq" =>
     match (l.str? "q").bind typeFact with
     | some (m, s) => out (fmtBool m) (fmtBool s)
